@@ -9,7 +9,7 @@ EXPLANATION = (
     "automatic flag; family concrete per obligation. Oracle: container required by family/flags (table from the ODF schema), at most one style per (tag, family, name) "
     "per container, lookup by the returned name yields exactly the inserted node, generated automatic names never collide. "
 )
-OUTSIDE = ("the four real templates and sample documents, save/reload, merge_styles_from and delete_styles (tree surgery on whole parts, nothing symbolic), set_table_displayed, "
+OUTSIDE = ("the four real templates and sample documents, save/reload, delete_styles, merge_styles_from with images referenced from styles (binary parts and manifest copying), merges of documents with more than two or three styles, set_table_displayed, "
            "add_page_break_style, names longer than 2 characters, families other than the six listed")
 ASSUMPTIONS = ["names of 1..2 characters over {a, b}"]
 TRUSTED = _T
@@ -36,3 +36,20 @@ for _fam in ("paragraph", "text"):
 OBLIGATIONS.append(Obl(name="insert_auto_interleaved_text", module="h_styles", func="insert_auto_interleaved", shadow=True, timeout=900, env={"VERIF_FAMILY": "text"},
                        extra={"family": "text"}, replay="r_h_styles:insert_auto_interleaved", weight=100,
                        bounds="unnamed automatic insert, a style named odfdo_auto_<k> (1 <= k <= 4) inserted before or after it, another unnamed insert", encodes=_ENC, stubs=_STUB))
+
+_MENC = _ENC + ["src/odfdo/document.py:Document.merge_styles_from"]
+for _k1 in range(3):
+    for _fam in ("paragraph", "text"):
+        OBLIGATIONS.append(Obl(name=f"merge_named_{_fam}_{_k1}", module="h_styles", func="merge_named", shadow=True, timeout=600, env={"VERIF_FAMILY": _fam, "VERIF_K1": str(_k1)},
+                               extra={"family": _fam, "k1": _k1}, replay="r_h_styles:merge_named", weight=70, tier="quick" if _fam == "paragraph" else "thorough",
+                               bounds=(f"dest holds ({_fam}, name {_k1} of ['a','b','a b']) + a style of another family with that name + a default style; the other document holds ({_fam}, name k2 - symbolic index) "
+                                       "common or automatic (symbolic), with or without a default style (symbolic); merge_styles_from: other unchanged, union, theirs win, no duplicates"),
+                               encodes=_MENC, stubs=_STUB))
+for _fam in ("master-page", "page-layout", "font-face"):
+    OBLIGATIONS.append(Obl(name=f"merge_kind_{_fam}", module="h_styles", func="merge_kind", shadow=True, timeout=300, env={"VERIF_FAMILY": _fam}, extra={"family": _fam},
+                           replay="r_h_styles:merge_kind", weight=20,
+                           bounds=f"merge of a {_fam} into a document holding one of the same or another name (symbolic), a paragraph style of the same name, optionally a default style",
+                           encodes=_MENC, stubs=_STUB))
+OBLIGATIONS.append(Obl(name="merge_marker", module="h_styles", func="merge_marker", shadow=True, timeout=400, replay="r_h_styles:merge_marker", weight=60,
+                       bounds="merge (once or twice - symbolic) of a document holding a draw:marker into one with 0..3 default styles and with or without a marker of the same draw:name",
+                       encodes=_MENC, stubs=_STUB))
